@@ -131,8 +131,18 @@ func TestVHReplay(t *testing.T) {
 '''
 
 
-def native_run(entry, params, vectors, dropped_files, timeout_s=60, race=False, repeat=1):
-    """Runs the harness entry natively on each vector. Returns list of observation strings (or 'HANG'/'CRASH')."""
+def native_run(entry, params, vectors, dropped_files, timeout_s=60, race=False, repeat=1, fresh=False):
+    """Runs the harness entry natively on each vector. Returns list of observation strings (or 'HANG'/'CRASH').
+    fresh=True: every vector runs in a process of its own (for obligations about process-wide state)."""
+    if fresh and len(vectors) > 1:
+        obs, logs, msgs = [], "", {}
+        for i, v in enumerate(vectors):
+            o, l, m = native_run(entry, params, [v], dropped_files, timeout_s, race, repeat)
+            obs.append(o[0])
+            logs += l or ""
+            if 0 in m:
+                msgs[i] = m[0]
+        return obs, logs, msgs
     tmp = tempfile.mkdtemp(prefix="vh-replay-")
     try:
         repl = {}
@@ -371,7 +381,8 @@ def check_property(pid, tier, seed):
             nat, log, msgs = ([], "", {})
             if vectors:
                 nat, log, msgs = native_run(ob["entry"], used, vectors, dropped_files,
-                                            timeout_s=ob.get("native_timeout_s", 40), repeat=ob.get("native_repeat", 1))
+                                            timeout_s=ob.get("native_timeout_s", 40), repeat=ob.get("native_repeat", 1),
+                                            fresh=bool(ob.get("native_fresh_process")))
             eng = engine_concrete(ob["entry"], used, vectors, opts) if vectors else []
             confirmed_here = []
             race_log = None
@@ -390,6 +401,7 @@ def check_property(pid, tier, seed):
                                "vector": v["vector"], "kind": v["kind"], "assert_id": v["assert_id"], "tags": v.get("tags") or [],
                                "input_text": v.get("text", ""), "where": v.get("where", ""),
                                "native_race_entry": ob.get("native_race_entry", ""), "native_repeat": ob.get("native_repeat", 1),
+                               "native_fresh_process": bool(ob.get("native_fresh_process")),
                                "native_observation": nat[i], "native_panic": msgs.get(i, "")}, open(path, "w"), indent=1)
                     violations.append((idn, v, path))
                     confirmed_here.append(idn)
